@@ -37,9 +37,10 @@ def tx_closure(f):
     for hb in f.local_callees(roots[0], depth=2, prefix="store::fs::"):
         if any((tables.call_table(ct, types) or (None, None))[:2] == (NP, "insert") for _, ct in hb.calls()):
             cands.append(hb)
-    if len(cands) != 1:
-        raise mir.AnchorMissing("expected one body writing the peers table inside register_useful_peer's transaction, found %s" % [c.path for c in cands])
-    return b, cands[0]
+    if not cands:
+        raise mir.AnchorMissing("no body writing the peers table inside register_useful_peer's transaction")
+    # (several: the closure and the helpers it calls - the evaluation starts at the function and inlines them)
+    return b, (cands[0] if len(cands) == 1 else f.body(roots[0]))
 
 
 def outer_names(f, outer, body, op):
@@ -301,6 +302,28 @@ def r7(ctx):
     actorfw.claim(ctx, "C17.R7", handlers=("RegisterUsefulPeer", "GetSyncPeers"), clients=("register_useful_peer", "get_sync_peers"), floor=7)
 
 
+def r8(ctx):
+    """who may write the useful-peers table: only a registration (Store::register_useful_peer), the removal of the document
+    (Store::remove_replica) and the migrations - an import, an upgrade of the capability, a policy change or a reopen never
+    touches the list ("always the five most recently registered distinct ones")"""
+    f = ctx.facts
+    types = tables.table_types(f)
+    peers = [nm for nm, kv in types.items() if "peers" in nm]
+    if len(peers) != 1:
+        raise mir.AnchorMissing("expected one peers table among the fields of Tables, found %s" % peers)
+    roots = {"store::fs::Store::register_useful_peer", "store::fs::Store::remove_replica"}
+    nw = 0
+    for b2, bi2, t2, name, op, ro in tables.writes(f, types):
+        if name != peers[0] or b2.path.startswith("store::fs::migrat"):
+            continue
+        nw += 1
+        ctx.check(f.only_reached_from(b2.path, roots), "C17.R8", b2.path, "writer-of-%s.%s" % (peers[0], op),
+                  "the useful-peers table is written only by register_useful_peer and remove_replica (or helpers only they call)", t2["sp"])
+    if nw < 3:
+        raise mir.AnchorMissing("expected >=3 writes of the peers table (insert, remove of the oldest, removal of the document), found %d" % nw)
+    ctx.floor("C17.R8", 3)
+
+
 def run(ctx):
     ctx.run_rule("C17.R1", r1)
     ctx.run_rule("C17.R2", r2)
@@ -309,3 +332,4 @@ def run(ctx):
     ctx.run_rule("C17.R5", r5)
     ctx.run_rule("C17.R6", r6)
     ctx.run_rule("C17.R7", r7)
+    ctx.run_rule("C17.R8", r8)
